@@ -375,25 +375,49 @@ def rule_aff_clip(ctx: Ctx) -> None:
               f'the clip sum is re-assigned inside the layer loop ({[norm(r) for r in rebinds]}): earlier layers are dropped from the sum', rebinds[0] if rebinds else lp)
     # terms, by bias valuation
     def term_forms(bias: bool) -> list[str]:
-        forms = []
-        e1 = {}
-        for k, ns in env.items():
-            for n in ns:
-                atoms = [(norm(a), pol) for g in flow.enclosing_guards(p, f, n) for a, pol in conjuncts(g.test, g.polarity)]
-                hb = [(a, pol) for a, pol in atoms if a == f'{lv}.module.has_bias()']
-                if all(pol == bias for a, pol in hb):
-                    e1[k] = n.value
-        nz = Normalizer(e1)
-        for a in accs:
-            atoms = [(norm(x), pol) for g in flow.enclosing_guards(p, f, a) for x, pol in conjuncts(g.test, g.polarity)]
-            hb = [(x, pol) for x, pol in atoms if x == f'{lv}.module.has_bias()']
-            other = [(x, pol) for x, pol in atoms if x != f'{lv}.module.has_bias()']
-            if other:
-                forms.append(f'GUARDED({other})')
-                continue
-            if all(pol == bias for x, pol in hb):
-                forms.append(nz.poly(a.value).canon())
+        """The increments of the accumulator in one iteration for a layer with / without bias: a walk of the loop body
+        in statement order (locals are substituted with the value they hold *at that point*)."""
+        import copy as _copy
+        forms: list[str] = []
+        env1: dict[str, _ast.expr] = {}
+        hb_text = f'{lv}.module.has_bias()'
+
+        def subst(e: _ast.expr) -> _ast.expr:
+            class S(_ast.NodeTransformer):
+                def visit_Name(self, n: _ast.Name) -> _ast.AST:  # noqa: N802
+                    if isinstance(n.ctx, _ast.Load) and n.id in env1:
+                        return _copy.deepcopy(env1[n.id])
+                    return n
+            return S().visit(_copy.deepcopy(e))
+
+        def run(sts: list, other: list[str]) -> bool:
+            for st in sts:
+                if isinstance(st, _ast.Assign) and len(st.targets) == 1 and isinstance(st.targets[0], _ast.Name):
+                    env1[st.targets[0].id] = subst(st.value)
+                elif isinstance(st, _ast.AugAssign) and isinstance(st.target, _ast.Name) and st.target.id == acc and isinstance(st.op, _ast.Add):
+                    forms.append(f'GUARDED({other})' if other else Normalizer({}).poly(subst(st.value)).canon())
+                elif isinstance(st, _ast.If):
+                    atoms = [(norm(subst(x)) if isinstance(x, _ast.expr) else norm(x), pol) for x, pol in conjuncts(st.test, True)]
+                    if atoms and all(x == hb_text for x, _pol in atoms):
+                        truth = all(pol == bias for _x, pol in atoms)
+                        if run(st.body if truth else st.orelse, other):
+                            return True
+                    elif all(isinstance(x, (_ast.Raise,)) for x in st.body) and not st.orelse:
+                        continue      # validation
+                    else:
+                        saved = dict(env1)
+                        run(st.body, other + [norm(st.test)])
+                        env1.clear()
+                        env1.update(saved)
+                        run(st.orelse, other + [f'not ({norm(st.test)})'])
+                        env1.clear()
+                        env1.update(saved)
+                elif isinstance(st, (_ast.Raise, _ast.Return, _ast.Continue, _ast.Break)):
+                    return True
+            return False
+        run(lp.body, [])
         return sorted(forms)
+
     def want_forms(bias: bool) -> list[str]:
         nzw = Normalizer({})
         w = f'{lv}.module.get_weight_grad()'
